@@ -205,7 +205,25 @@ func MutexUnlock(m *sync.Mutex) {
 	}
 	mutexHeld[m] = 0
 	LockEvent(m, false)
+	if UnlockHook != nil && m == UnlockHookMutex {
+		if UnlockHookSkip > 0 {
+			UnlockHookSkip--
+		} else {
+			h := UnlockHook
+			UnlockHook = nil
+			h()
+		}
+	}
 }
+
+// UnlockHook, when set, runs once right after a release of UnlockHookMutex (after UnlockHookSkip earlier releases):
+// the place where another caller that was waiting for the mutex gets to run. C11 uses it to execute a second call at
+// a lock boundary inside the first one — a real interleaving, whatever it does to the first call's control flow.
+var (
+	UnlockHook      func()
+	UnlockHookMutex *sync.Mutex
+	UnlockHookSkip  int
+)
 
 //verif:replace (*sync.Mutex).TryLock
 func MutexTryLock(m *sync.Mutex) bool {
